@@ -24,6 +24,7 @@ def run(r):
         "kernel_eq theorems: every mapped axis is non-empty for exact equality; over an empty mapped axis only the leading lengths are claimed (the property's carve-out)",
         "composition / reduce-under-rows theorems: the nesting depth does not exceed the rank (below it the faithful kernels are refuted, see the *_refuted theorems)",
         "routing specs: the operands' frame behaviour (Frame.sig_sound) is a premise",
+        "fork / bracket with a pack of n functions: Model/Exec.v carries the 2-function forms only; the n-ary laws are proved of Model/RoutePack.v (transcription of run_prim.rs with operands as pure argument->output maps) and connected to the implementation by the search only (packs of 3-4 functions of mixed arities, distinguishable arguments); subscripted both/on/by/with/off and dip/gap chains are search only",
         "spine-level theorems about the iterating modifiers (iter_operand_ext, iter_exec_zero, iter_exec_runs) are about Model/Exec.v's iter_exec, where the array side (how many runs, which arguments, how results are assembled) is an oracle; the array side is what Kernels.v and the tie cover",
     ]
     if not r.harness(["c07"]):
@@ -135,7 +136,7 @@ def run(r):
     r.coverage["distinct_nontrivial"] = len(set((c["prog"], c["x"]) for c in rep if "[]" not in c["x"])) + compared // 3
     r.coverage["rule"] = ("tie: catalogue operand (26: fast-path atoms, generic atoms, composites with equal / unequal kernel depths) x nesting 1-3 x integer or character "
                           "array of rank 1-4, axis lengths 0-3, leading axis forced to 1 / 0 in 30% of the cases; search: operand from 44 monadic / 18 dyadic "
-                          "functions x {direct, named wrapper, `(F∘)`} x modifier family x arrays of every element type, rank 1-3; plus operands with 2-3 outputs (constants, random numbers, by/on/fork/bracket inside the operand) under rows (depth 1-2), each, inventory, table, fold, ALL outputs compared in order (one iteration in six and a fixed corpus); plus a directed family (fixed corpus and one iteration in six): "
+                          "functions x {direct, named wrapper, `(F∘)`} x modifier family x arrays of every element type, rank 1-3; routing: the 13 modifiers with one or two operands, fork and bracket with packs of 3-4 functions of mixed arities (directed corpus with a first function of smaller arity), both with subscripts 2-4, on/by/with/off with subscript 2, dip/gap chains, whole stack compared incl. the values beneath; plus operands with 2-3 outputs (constants, random numbers, by/on/fork/bracket inside the operand) under rows (depth 1-2), each, inventory, table, fold, ALL outputs compared in order (one iteration in six and a fixed corpus); plus a directed family (fixed corpus and one iteration in six): "
                           "reduce / scan / table / fold / rows / each of operands with primitive-specialised paths on arguments that carry run-time sortedness marks "
                           "(sort, reversed sort, select by rise; ties; byte and float storage; rank 1-3, rows ordered while later columns are not monotone); "
                           "non-trivial = array with at least one element")
